@@ -108,6 +108,9 @@ def check(pid, tier):
     out_root = os.path.join(BUILD, "alt_out") if alt else HERE
     replay_dir = os.path.join(out_root, "replays", pid)
     os.makedirs(replay_dir, exist_ok=True)
+    for old in os.listdir(replay_dir):
+        if old.endswith(".json"):
+            os.unlink(os.path.join(replay_dir, old))
     for p, (binp, errtxt) in built.items():
         if binp is None:
             j = uniq[p]
